@@ -529,7 +529,7 @@ def main(argv):
         hs = [read_replay(ck.replay)]
     else:
         big1024 = set(ck.rng.sample(LENS[9:], 2))
-        n = 14 if ck.tier == "quick" else 400
+        n = 14 if ck.tier == "quick" else 60
         hs = list(CORPUS)
         for i in range(n):
             # forLoop kernels include <occa.hpp> and nearly every structure is a new kernel: fewer of them
